@@ -2,12 +2,12 @@ package main
 
 // Item kinds of the lock group (C18–C21).
 //
-//   guard      — a boolean guard: the condition of an `if` or a case expression of a tag-less `switch`, looked for in
+//   lockguard      — a boolean guard: the condition of an `if` or a case expression of a tag-less `switch`, looked for in
 //                the named function first and then in every other function of the file, kept when it translates with the
 //                item's binders. Every candidate is offered in both polarities (`if !ok { fix }` and `case ok: keep` are
 //                the same guard), so the tie is "some guard of the file is the model's piece or its negation".
-//   hascall    — does the file still contain the call `<var>(<subst["arg"]>)`, e.g. `sort.Strings(keys)`? → `true`/`false`.
-//   durationms — the `index`-th argument of the first call of `<var>` in the file, a constant duration such as
+//   lockhascall    — does the file still contain the call `<var>(<subst["arg"]>)`, e.g. `sort.Strings(keys)`? → `true`/`false`.
+//   lockdurationms — the `index`-th argument of the first call of `<var>` in the file, a constant duration such as
 //                `500 * time.Millisecond`, in milliseconds.
 
 import (
@@ -18,9 +18,9 @@ import (
 )
 
 func init() {
-	extraKinds["guard"] = guardKind
-	extraKinds["hascall"] = hasCallKind
-	extraKinds["durationms"] = durationMsKind
+	extraKinds["lockguard"] = guardKind
+	extraKinds["lockhascall"] = hasCallKind
+	extraKinds["lockdurationms"] = durationMsKind
 }
 
 func guardKind(t *tr, f *ast.File) ([]cand, error) {
